@@ -380,7 +380,7 @@ def build_call(case, carrier="nd_f8", tcarrier="dt64ns", span_kind="list"):
         if not (od and case["check_type"] == "std"):
             kw["check_type"] = case["check_type"]
         if case.get("period") is not None:
-            kw["test_period"] = int(case["period"])
+            kw["test_period"] = int(case["period"]) if Fraction(case["period"]).denominator == 1 else float(case["period"])
         if case.get("min_obs") is not None:
             kw["min_obs"] = int(case["min_obs"])
         if case.get("min_period") is not None:
